@@ -113,9 +113,12 @@ type Exec struct {
 
 	Log         []Op
 	Ress        []Res
-	Halted      string    // non-empty once the chain would have halted
-	LastEndTime time.Time // block time at which the last end-of-block ran
-	ErrLogs     []ErrLog  // Error-level log lines (x/staking logs swallowed hook errors)
+	Halted      string          // non-empty once the chain would have halted
+	LastEndTime time.Time       // block time at which the last end-of-block ran
+	MidSnap     *Snap           // state between the staking and the alliance end-blocker of the last block op
+	EndSnap     *Snap           // state at the last block boundary (after both end-blockers, before time advances)
+	blockHad    map[string]bool // op kinds executed successfully since the last block boundary
+	ErrLogs     []ErrLog        // Error-level log lines (x/staking logs swallowed hook errors)
 
 	Oracles []Oracle
 
@@ -309,6 +312,17 @@ func (x *Exec) Apply(op Op) Res {
 	}
 	x.Ress = append(x.Ress, res)
 	x.L.record(x, &op, &res)
+	if x.blockHad == nil {
+		x.blockHad = map[string]bool{}
+	}
+	if op.K != KBlock && (res.OK || op.K == KSlash) {
+		x.blockHad[op.K] = true
+	}
+	defer func() {
+		if op.K == KBlock {
+			x.blockHad = map[string]bool{}
+		}
+	}()
 	if x.Halted != "" {
 		// The block in which the chain halts is never committed: only oracles that judge
 		// the halt itself (C17) look at it.
@@ -525,6 +539,7 @@ func (x *Exec) nextBlock(op *Op) Res {
 		_, err := w.App.StakingKeeper.EndBlocker(ctx)
 		return err
 	})
+	x.MidSnap = TakeSnap(w, x.Ctx)
 	if !r1.OK {
 		out.StakingEBErr = r1.Err + r1.Panic
 		x.Halted = "staking end-blocker: " + out.StakingEBErr
@@ -543,6 +558,7 @@ func (x *Exec) nextBlock(op *Op) Res {
 		return out
 	}
 	x.LastEndTime = x.Ctx.BlockTime()
+	x.EndSnap = TakeSnap(w, x.Ctx)
 	x.endOfBlock() // hook for oracles wanting the state exactly at the block boundary
 	// advance
 	x.Ctx = x.Ctx.WithBlockTime(x.Ctx.BlockTime().Add(time.Duration(op.Dt))).WithBlockHeight(x.Ctx.BlockHeight() + 1)
@@ -643,5 +659,7 @@ func sortedKeys[V any](m map[string]V) []string {
 }
 
 func coinsStr(c sdk.Coins) string { return c.String() }
+
+func parseCoins(s string) (sdk.Coins, error) { return sdk.ParseCoinsNormalized(s) }
 
 var _ = strings.Contains
